@@ -438,6 +438,25 @@ fn one(ctx: &mut Ctx, tape: &[u32]) -> Result<(), Fail> {
     }
 }
 
+/// libFuzzer entry: Some(message) on a violation
+pub fn fuzz_one(tape: &[u32]) -> Option<String> {
+    let mut t = Tape::new(tape);
+    if t.chance(1, 5) {
+        let c = gen_matrix_case(&mut t)?;
+        return match check_matrix(&c) {
+            Ok(()) => None,
+            Err(e) if e.starts_with("HARNESS") => None,
+            Err(e) => Some(e),
+        };
+    }
+    let p = gen_pair(&mut t)?;
+    match check_pair(&p) {
+        Ok(_) => None,
+        Err(e) if e.starts_with("HARNESS") => None,
+        Err(e) => Some(e),
+    }
+}
+
 pub fn run(ctx: &mut Ctx) {
     ctx.rule = "cases = metamorphic pairs (two attribute spellings / macro variants for one generated fn|mod|trait item) for the relations bare==true, \
                 false==omitted, order independence, variant==option, plus option x target acceptance-matrix points; a pair is non-trivial when both sides are \
